@@ -43,4 +43,10 @@ theorem inv_fresh {c : Ctx} {s : Store} {G : Block} (h : FreshStore c s G) : Inv
     | succ n => simp [AMap.get_nil]
   · rw [h.syncedTo]; rfl
 
+/-- … including the address records, relative to the records the store starts with (the issued addresses) -/
+theorem invFull_fresh {c : Ctx} {s : Store} {G : Block} (h : FreshStore c s G) :
+    InvFull c s (fun k => AMap.get s.addrs k) [G] := by
+  refine ⟨inv_fresh h, fun k => ?_⟩
+  simp [booksFrom, occs, occsOfBlock, h.genesis, occsFrom]
+
 end MW.Lemmas.Ledger
